@@ -32,8 +32,15 @@ fn best_isa_x86(mask: u32) -> usize {
 /// check the trace of one operation group: everything that ran must have run on `best`
 fn judge(name: &str, best: usize, must_run: &[usize]) -> Result<String, String> {
     let t = vh::trace_snapshot();
+    let core = vh::core_snapshot();
     vh::trace_reset();
     let mut desc = Vec::new();
+    // the shared eval_poly building block must only ever run inside an ISA-specific entry point:
+    // reached any other way it is baseline-compiled code, which is only right when nothing better is reported
+    let attributed: u64 = (0..vh::ISA_COUNT).map(|isa| t[isa][vh::PRIM_EVAL_POLY]).sum();
+    if core[vh::PRIM_EVAL_POLY] > attributed && best != vh::ISA_PORTABLE {
+        return Err(format!("{name}: polynomial evaluation ran {} time(s) outside every ISA-specific entry point (baseline code) although the best reported ISA is '{}'", core[vh::PRIM_EVAL_POLY] - attributed, ISA_NAMES[best]));
+    }
     for isa in 0..vh::ISA_COUNT {
         for prim in 0..vh::PRIM_COUNT {
             if t[isa][prim] > 0 {
@@ -45,6 +52,9 @@ fn judge(name: &str, best: usize, must_run: &[usize]) -> Result<String, String> 
         }
     }
     for &p in must_run {
+        if p == vh::PRIM_EVAL_POLY && core[p] > 0 && best == vh::ISA_PORTABLE {
+            continue; // ran as baseline code, which is the best available
+        }
         if t[best][p] == 0 {
             // nothing ran on a wrong ISA (checked above) and nothing on the best one: no trace point was
             // reached at all for this primitive - the instrumentation does not see it (machinery, not a verdict)
@@ -252,7 +262,7 @@ pub fn replay(ctx: &Ctx, case: &str) -> Result<(), String> {
 pub fn run(ctx: &Ctx, rep: &mut Report) {
     rep.rule = "one fresh process per subset of {AVX2, SSSE3} (x86 arm, this CPU) and of {Neon} (AArch64 arm of DefaultEngine, ported at build time over the emulated Neon engine); in each, every operation of the alphabet (engine construction, fft, ifft, mul, DefaultEngine::eval_poly, ReedSolomonEncoder/Decoder rounds with resets across rates, one-shot encode/decode, DefaultRate<DefaultEngine> round) is followed by a check of the ISA trace: only the best reported ISA may have executed, for every primitive; results must be identical under every subset; non-trivial = (mask, operation) pairs; distinct by (arch, mask, operation)".into();
     rep.assume("the mask can only hide features this CPU has; which entry points are reached is observed through trace points placed in every #[target_feature] function, NoSimd's Engine methods and the provided Engine::eval_poly");
-    rep.assume("a new target_feature entry point without a trace line would be invisible to this check");
+    rep.assume("a new target_feature entry point without a trace line would be invisible to this check; the shared eval_poly building block carries an ISA-independent counter, so reaching it outside every traced entry point is seen");
     let has_avx2 = std::is_x86_feature_detected!("avx2");
     let has_ssse3 = std::is_x86_feature_detected!("ssse3");
     rep.extra("cpu_avx2", J::Bool(has_avx2));
